@@ -204,8 +204,8 @@ func vc12Budget(in *c12h.Input) uint64 {
 
 func TestVerif_C12(t *testing.T) {
 	c12h.Run(t, &c12h.Part{
-		Name: vc12Part,
-		Rule: "legacy compactindex Open / DB.Lookup / Bucket.Load / Prefetch+Lookup on mutated valid index files (header and bucket-header fields, truncations, random edits, junk): no panic, allocation <= 8*len+256KiB (+ one batch for Load, + the prefetch window), no hang",
+		Name:  vc12Part,
+		Rule:  "legacy compactindex Open / DB.Lookup / Bucket.Load / Prefetch+Lookup on mutated valid index files (header and bucket-header fields, truncations, random edits, junk): no panic, allocation <= 8*len+256KiB (+ one batch for Load, + the prefetch window), no hang",
 		Seeds: vc12Seeds, Gen: vc12Gen, Exec: vc12Exec, Budget: vc12Budget,
 	})
 }
